@@ -32,11 +32,11 @@ def concretise(c, rnd):
         if rk in ("circle",) and (b["x2"] - b["x1"]) != (b["y2"] - b["y1"]):
             rk = "ellipse"
         if rk == "nested":
-            base = geom.ref_element(rnd.choice(["rect", "line"]), b, "h" + ids[i])
+            base = geom.ref_element(rnd.choice(["rect", "line"]), b, "h" + ids[i], rnd)
             own = f'<rect id="{ids[i]}" surround="#h{ids[i]}"/>'
             els.append(base + own if rnd.random() < 0.5 else own + base)
             continue
-        els.append(geom.ref_element(rk, b, ids[i]))
+        els.append(geom.ref_element(rk, b, ids[i], rnd))
     refs = rnd.choice([" ", ", "]).join("#" + ids[i] for i in range(len(c["refs"])))
     m = f' margin="{margin_str(c["margin"])}"' if c["margin"] else ""
     me = f'<{c["kind"]} id="s" {c["mode"].split("-")[0]}="{refs}"{m}/>'
